@@ -2158,3 +2158,6 @@ V("C05", "benign_event_reset_skipped_for_unassigned_keys", "benign", None, (Z, "
 V("C04", "benign_event_reset_skipped_for_unassigned_keys", "benign", None, (Z, "        try:\n            values = self_.values()\n            restore = {k: values[k] for k, v in kwargs.items() if k in values}", "        applied = set()\n        try:\n            values = self_.values()\n            restore = {k: values[k] for k, v in kwargs.items() if k in values}"), (Z, "                setattr(self_or_cls, k, v)\n        finally:", "                setattr(self_or_cls, k, v)\n                applied.add(k)\n        finally:"), (Z, "                for tp in trigger_params:\n                    p = self_[tp]\n                    p._mode = 'reset'", "                for tp in trigger_params:\n                    if tp not in applied:\n                        continue\n                    p = self_[tp]\n                    p._mode = 'reset'"))
 V("C05", "switched_event_modes_not_restored", "fire", "R05.m", (Z, "                for p in switched:\n                    p._mode = 'set-reset'\n", ""))
 V("C18", "redeclared_selector_loses_labels", "fire", "R18.p", (P, "            self.names = Undefined\n            self._objects = objects", "            self.names = {}\n            self._objects = objects"))
+# --- fail-closed -> violation upgrades (while round j runs)
+V("C01", "non_class_value_falls_back_to_isinstance", "fire", "R01.h", (P, "        if (is_instance and isinstance(val, class_)) or (not is_instance and issubclass(val, class_)):\n            return\n", "        check = issubclass if (not is_instance and isinstance(val, type)) else isinstance\n        if check(val, class_):\n            return\n"))
+V("C01", "benign_class_test_chosen_by_name", "benign", None, (P, "        if (is_instance and isinstance(val, class_)) or (not is_instance and issubclass(val, class_)):\n            return\n", "        check = isinstance if is_instance else issubclass\n        if check(val, class_):\n            return\n"))
